@@ -1,4 +1,5 @@
 import TLVerif.Packet.ToyEnv
+import TLVerif.Packet.CrcLemmas
 /-!
 # C35 — Packet stream framing round-trips and detects corruption
 
@@ -134,6 +135,24 @@ theorem corrupt_detected_partial (e : Env) (hc : e.CrcDetects) (n0 : Nat) (m0 : 
         readLoop (chunkSrc e) e (schedOfOps e (flat (A ++ s :: B)) (freshW n0 m0)) (A.length + (f + 1)) ⟨n0, m0⟩
             { chunks := cs } = (A.map stepEv, some er) :=
   corrupt_detected_chunks e hc n0 m0 hm0 A s B hok hne hpos i y hi4 hi hy
+
+/-- The checksum hypothesis holds for the executable bitwise CRC-32 (IEEE and Castagnoli polynomials) that the model
+driver runs and that the correspondence run compares with `hash/crc32` byte for byte. -/
+theorem real_crc_detects : realEnv.CrcDetects := Packet.real_crc_detects
+
+/-- `corrupt_detected_partial` for the driver's environment, with no hypothesis left about the checksum. -/
+theorem corrupt_detected_real (n0 : Nat) (m0 : Mode) (hm0 : m0.enc = false)
+    (A : List Step) (s : Step) (B : List Step)
+    (hok : StepsOK realEnv (freshW n0 m0) (A ++ s :: B)) (hne : NoEncSteps (A ++ s :: B)) (hpos : n0 + A.length ≠ 0)
+    (i : Nat) (y : UInt8) (hi4 : 4 ≤ i)
+    (hi : i < (frame realEnv (wModes (wSteps realEnv (freshW n0 m0) A) s.modes).mode (wSteps realEnv (freshW n0 m0) A).n s.tip s.body).length)
+    (hy : y ≠ (frame realEnv (wModes (wSteps realEnv (freshW n0 m0) A) s.modes).mode (wSteps realEnv (freshW n0 m0) A).n s.tip s.body)[i]) :
+    ∃ wf, finalW realEnv (flat (A ++ s :: B)) (freshW n0 m0) = some wf ∧
+      ∃ er, ∀ (cs : List Bytes) (f : Nat),
+        cs.flatten = (wf.wire realEnv).set ((stepsBytes realEnv (freshW n0 m0) A).length + i) y →
+        readLoop (chunkSrc realEnv) realEnv (schedOfOps realEnv (flat (A ++ s :: B)) (freshW n0 m0)) (A.length + (f + 1))
+            ⟨n0, m0⟩ { chunks := cs } = (A.map stepEv, some er) :=
+  corrupt_detected_chunks realEnv Packet.real_crc_detects n0 m0 hm0 A s B hok hne hpos i y hi4 hi hy
 
 /-- The full-strength corruption statement, kept visible: every single-byte change of the wire after the handshake,
 in any mode, is reported as an error. It is *not* provable from `CrcDetects` (length word, CBC ciphertext). -/
